@@ -1,13 +1,19 @@
 pub mod c01;
+pub mod c02;
+pub mod c03;
 pub mod c04;
 pub mod c05;
 pub mod c12;
+pub mod c13;
+pub mod c14;
+pub mod c15;
 pub mod c17;
 pub mod c18;
 pub mod c07;
 pub mod c08;
 pub mod c09;
 pub mod c10;
+pub mod c11;
 pub mod c16;
 
 use crate::runner::*;
@@ -28,8 +34,11 @@ pub const COMMON_ASSUMPTIONS: &[&str] = &[
 pub fn info(id: &str) -> Option<Info> {
     Some(match id {
         "C01" => Info { id: "C01", rule: c01::RULE, floor_classes: 100, assumptions: COMMON_ASSUMPTIONS },
+        "C02" => Info { id: "C02", rule: c02::RULE, floor_classes: 100, assumptions: COMMON_ASSUMPTIONS },
+        "C03" => Info { id: "C03", rule: c03::RULE, floor_classes: 100, assumptions: COMMON_ASSUMPTIONS },
         "C04" => Info { id: "C04", rule: c04::RULE, floor_classes: 20, assumptions: COMMON_ASSUMPTIONS },
         "C05" => Info { id: "C05", rule: c05::RULE, floor_classes: 40, assumptions: COMMON_ASSUMPTIONS },
+        "C11" => Info { id: "C11", rule: c11::RULE, floor_classes: 30, assumptions: COMMON_ASSUMPTIONS },
         "C12" => Info { id: "C12", rule: c12::RULE, floor_classes: 10, assumptions: COMMON_ASSUMPTIONS },
         "C17" => Info { id: "C17", rule: c17::RULE, floor_classes: 10, assumptions: COMMON_ASSUMPTIONS },
         "C18" => Info { id: "C18", rule: c18::RULE, floor_classes: 6, assumptions: COMMON_ASSUMPTIONS },
@@ -37,6 +46,9 @@ pub fn info(id: &str) -> Option<Info> {
         "C08" => Info { id: "C08", rule: c08::RULE, floor_classes: 200, assumptions: COMMON_ASSUMPTIONS },
         "C09" => Info { id: "C09", rule: c09::RULE, floor_classes: 200, assumptions: COMMON_ASSUMPTIONS },
         "C10" => Info { id: "C10", rule: c10::RULE, floor_classes: 200, assumptions: COMMON_ASSUMPTIONS },
+        "C13" => Info { id: "C13", rule: c13::RULE, floor_classes: 20, assumptions: COMMON_ASSUMPTIONS },
+        "C14" => Info { id: "C14", rule: c14::RULE, floor_classes: 10, assumptions: COMMON_ASSUMPTIONS },
+        "C15" => Info { id: "C15", rule: c15::RULE, floor_classes: 10, assumptions: COMMON_ASSUMPTIONS },
         "C16" => Info { id: "C16", rule: c16::RULE, floor_classes: 40, assumptions: COMMON_ASSUMPTIONS },
         _ => return None,
     })
@@ -45,8 +57,11 @@ pub fn info(id: &str) -> Option<Info> {
 pub fn run(id: &str, ctx: &mut Ctx) {
     match id {
         "C01" => c01::run(ctx),
+        "C02" => c02::run(ctx),
+        "C03" => c03::run(ctx),
         "C04" => c04::run(ctx),
         "C05" => c05::run(ctx),
+        "C11" => c11::run(ctx),
         "C12" => c12::run(ctx),
         "C17" => c17::run(ctx),
         "C18" => c18::run(ctx),
@@ -54,6 +69,9 @@ pub fn run(id: &str, ctx: &mut Ctx) {
         "C08" => c08::run(ctx),
         "C09" => c09::run(ctx),
         "C10" => c10::run(ctx),
+        "C13" => c13::run(ctx),
+        "C14" => c14::run(ctx),
+        "C15" => c15::run(ctx),
         "C16" => c16::run(ctx),
         _ => panic!("unknown property {}", id),
     }
